@@ -270,7 +270,7 @@ func c03Codec(c *vf.Ctx) {
 	if !c.Active(sub) {
 		return
 	}
-	n := c.N(600, 20000)
+	n := c.N(3000, 20000)
 	for i := 0; i < n; i++ {
 		if !c.Mine(sub, i) {
 			continue
@@ -351,7 +351,7 @@ func c03Bytes(c *vf.Ctx) {
 	if !c.Active(sub) {
 		return
 	}
-	n := c.N(60, 3000)
+	n := c.N(300, 3000)
 	for i := 0; i < n; i++ {
 		if !c.Mine(sub, i) {
 			continue
@@ -411,7 +411,7 @@ func c03EndToEnd(c *vf.Ctx) {
 	if !c.Active(sub) {
 		return
 	}
-	n := c.N(220, 4000)
+	n := c.N(1000, 4000)
 	for i := 0; i < n; i++ {
 		if !c.Mine(sub, i) {
 			continue
